@@ -206,3 +206,16 @@ int main(){ const int fs=8; const double f=0.5; Tuner t(fs, f); arr_cmplx x(3*fs
   for(int k=0;k<x.size();++k){ double ph=2*pi*f*k/fs; if(std::fabs(y[k].re-std::cos(ph))>1e-9||std::fabs(y[k].im-std::sin(ph))>1e-9){ if(!bad) std::printf("sample %d: (%g,%g) expected (%g,%g)\\n",k,y[k].re,y[k].im,std::cos(ph),std::sin(ph)); ++bad; } }
   return bad?1:0; }
 '''
+
+
+@adapter(r'_kendall_corr')
+def kendall_replay(o):
+    m = o['model'] or {}
+    xs = [frac(e[0]) for e in (m.get('x._vec[]') or [])] or ['2.0', '1.0', '3.0']
+    ys = [frac(e[0]) for e in (m.get('y._vec[]') or [])] or ['1.0', '2.0', '3.0']
+    return HDR + '''
+int main(){ arr_real x = {%s}, y = {%s}; int n=x.size(); int nc=0, nd=0;
+  for(int i=0;i<n;++i) for(int k=i+1;k<n;++k){ double s=(x[i]-x[k])*(y[i]-y[k]); if(s>0) ++nc; else if(s<0) ++nd; }
+  if(nc+nd==0) return 0; double want = double(nc-nd)/(nc+nd); double got = corr(x, y, Correlation::Kendall); double sym = corr(y, x, Correlation::Kendall);
+  if(std::fabs(got-want)>1e-12 || std::fabs(sym-want)>1e-12){ std::printf("tau=%%g (swapped %%g) expected %%g\\n",got,sym,want); return 1; } return 0; }
+''' % (','.join(xs), ','.join(ys))
